@@ -281,3 +281,52 @@ func init() {
 	register(&Scenario{Prop: "C12", Name: "c12/kept-data-buffer-size-1000", Quick: []Bound{{0, 0}}, Thorough: []Bound{{1, 0}}, Body: c11BoundaryBufP("C12", odd, 1000), BudgetQ: 15})
 	register(&Scenario{Prop: "C11", Name: "c11/frame-boundary-buf100-encoders", Quick: []Bound{{0, 0}}, Thorough: []Bound{{1, 0}}, Body: c11BoundaryBufP("C11", odd, 100), BudgetQ: 15})
 }
+
+// a caller-supplied buffer (the context buffer of CallWithContext, Call.Buffer of RoundTrip) and
+// a call that FAILS on the server (handler error, unknown method): the library reports no reply, so it
+// has not written anything into the buffer - the sentinel bytes are all still there.
+func c11FailedCallBuffer(x *X) {
+	m := c11Modes[x.Choose(5)]
+	via := x.Choose(2)  // CallWithContext / RoundTrip with Call.Buffer
+	kind := x.Choose(2) // handler error / unknown method
+	size := []int{12, 40, 63}[x.Choose(3)]
+	f := newFixture(m.so, m.co)
+	buf := make([]byte, 64)
+	for i := range buf {
+		buf[i] = 0xA5
+	}
+	args := mkPayload(0x31, fErr, size)
+	f.w.errText[0x31] = "no"
+	method := "Svc.Echo"
+	if kind == 1 {
+		method = "Svc.Nope"
+	}
+	var reply []byte
+	var err error
+	ret := false
+	if via == 0 {
+		hc := newCtx(buf)
+		vs.GoNamed("caller", func() { err = f.conn.CallWithContext(hc, method, &args, &reply); ret = true })
+	} else {
+		done := make(chan *rpc.Call, 1)
+		call := &rpc.Call{ServiceMethod: method, Args: &args, Reply: &reply, Buffer: buf, Done: done}
+		vs.GoNamed("caller", func() { f.conn.RoundTrip(call); recvCall(done); err = call.Error; ret = true })
+	}
+	vs.Quiesce()
+	if !ret || err == nil {
+		x.Fail("C11/failed-call-outcome", "the failing call: returned=%v err=%v", ret, err)
+	}
+	for i, b := range buf {
+		if b != 0xA5 {
+			x.Fail("C11/buffer-written-by-failed-call", "a call that failed on the server (%s; %d argument bytes; via %s; mode %s) left the caller-supplied 64-byte buffer changed at offset %d (%x...), although no reply was reported", []string{"handler error", "unknown method"}[kind], size, []string{"CallWithContext", "RoundTrip with Call.Buffer"}[via], m.name, i, clipBytes(buf, 16))
+			break
+		}
+	}
+	x.Outcome("%s via=%d kind=%d size=%d", m.name, via, kind, size)
+	f.conn.Close()
+	vs.Quiesce()
+}
+
+func init() {
+	register(&Scenario{Prop: "C11", Name: "c11/failed-call-with-caller-buffer", Quick: []Bound{{0, 0}, {1, 0}}, Thorough: []Bound{{2, 0}}, Body: c11FailedCallBuffer, BudgetQ: 15})
+}
